@@ -414,6 +414,21 @@ def main(tier, seed):
         V.append(dict(sig="manager-influenced:concurrent-init", replay_kind="initrace",
                       what="%s threads creating and initialising their own managers: after %s rounds a manager differed from what the same "
                            "calls give alone: %s" % (IR["threads"], IR["rounds"], IR["first"])))
+    # (f) concurrent imb_set_session() on private managers: ids must stay distinct (atomic session counter)
+    rcs, outs_, errs_ = run([exe, "--sessrace", "8", "200000" if tier == "quick" else "1000000"], timeout=200)
+    SR = {}
+    for l in outs_.splitlines():
+        if l.startswith("SR threads="):
+            SR = dict(x.split("=", 1) for x in l.split()[1:])
+    if rcs != 0 or not SR:
+        V.append(dict(sig="sessrace-crash", what="concurrent imb_set_session probe exit %s %s" % (rcs, errs_[-200:])))
+    elif int(SR["dup_alone"]) != 0:
+        corr.append("session ids are not distinct even single-threaded (%s duplicates): the probe's assumption does not hold" % SR["dup_alone"])
+    elif int(SR["dup_within_manager"]) != 0 or int(SR["dup_overall"]) != 0:
+        V.append(dict(sig="manager-influenced:concurrent-set-session", replay_kind="sessrace",
+                      what="%s threads, each calling imb_set_session %s times on its own manager: %s session ids were handed out twice within "
+                           "one manager and %s overall; the same number of calls from one thread gives distinct ids"
+                           % (SR["threads"], SR["calls_per_thread"], SR["dup_within_manager"], SR["dup_overall"])))
     allchanged = set(wchanged)
     soft_total = 0
     for r in results:
@@ -451,7 +466,7 @@ def main(tier, seed):
         "threaded_cases": sum(1 for r in results if r["mode"] == "threads"),
         "thread_counts": sorted(set(len(r["mgrs"]) for r in results if r["mode"] == "threads")),
         "variant_pairs_covered": len(set(tuple(map(tuple, r["mgrs"])) for r in results if len(r["mgrs"]) == 2)),
-        "variants": ["%s:f%d" % v for v in VARIANTS], "witness": W, "concurrent_creation": IR, "globals_changed_at_runtime": sorted(allchanged),
+        "variants": ["%s:f%d" % v for v in VARIANTS], "witness": W, "concurrent_creation": IR, "concurrent_set_session": SR, "globals_changed_at_runtime": sorted(allchanged),
         "writable_symbols": [(s["name"], s["section"], s["size"]) for s in gj["syms"]], "writable_gaps": gj["gaps"],
         "get_errno_differences_in_threaded_runs": soft_total, "drd": drd, "items": len(lines),
         "samples": [cs[0][3][:8], cs[-1][3][:8]], "traces_validated_against_impl": len(results),
@@ -520,6 +535,11 @@ def replay(path):
         print(out)
         W = {l.split()[0]: dict(t.split("=", 1) for t in l.split()[1:]) for l in out.splitlines() if l.startswith("W")}
         bad = int(W["W1"]["getA_after_B_failed"]) != int(W["W1solo"]["getA"]) if sig.endswith("same-thread") else int(W["W2"]["nonzero"]) != 0
+        return 1 if bad else 0
+    if sig == "manager-influenced:concurrent-set-session":
+        rc, out, err = run([exe, "--sessrace", "8", "1000000"], timeout=200)
+        print(out)
+        bad = rc != 0 or any(l.startswith("SR threads=") and ("dup_within_manager=0 dup_overall=0" not in l) for l in out.splitlines())
         return 1 if bad else 0
     if sig == "manager-influenced:concurrent-init":
         rc, out, err = run([exe, "--initrace", "8", "15"], timeout=200)
